@@ -44,7 +44,7 @@ _hist("C28", "Differential: every query of the battery is issued on the live han
 _hist("C18", "Read-only sessions under the syscall monitor: open_read_only, model comparison against the last committed state (records still pending in the log after a process death must not show), searches, timelines, vector queries, verify, drop; no write-class syscall may be issued on the memory's directory and the file hash is the same when the handle is dropped as when it was opened.")
 _hist("C19", "A directory listing after every API return (successful or failed) over histories with vacuum and doctor, with injected ENOSPC/EIO/EMFILE/short writes/EINTR in two thirds of the runs; create/open must refuse to run while a planted forbidden sidecar (-wal/-shm/-lock/-journal and dot-prefixed variants) exists.")
 _hist("C24", "Tickets granting a capacity a few bytes to kilobytes above the current payload end, then whole and chunked puts with and without commits and restarts; after every call each frame's payload end is compared with the granted capacity, an incompressible payload that cannot fit must be refused, and refused puts are monitored for write-class syscalls.")
-_hist("C25", "Ticket sequences (fresh, stale, equal, negative) interleaved with commits, clean restarts and process death: a ticket is accepted only if its number exceeds every number accepted before (model survives restart); rejected tickets issue no write-class syscall and leave the ticket state unchanged; signed tickets with random signatures, wrong memory ids or on unbound memories are rejected. Acceptance of an authentic signed ticket is out of reach (no private key).")
+_hist("C25", "Ticket sequences (fresh, stale, equal, negative) interleaved with commits, clean restarts and process death: a ticket is accepted only if its number exceeds every number accepted before (model survives restart); rejected tickets issue no write-class syscall and leave the ticket state unchanged; signed tickets with random signatures, wrong memory ids or on unbound memories are rejected; the one authentic signed ticket available offline (the vector pinned in the crate's own signature tests) is accepted on the memory it names when its number is fresh, rejected on any other or unbound memory, and rejected with any single field changed.")
 _hist("C42", "Histories with deletes and updates (including payload-reusing updates) followed by vacuum, directly or through doctor: frame table and exact contents equal the model afterwards, verify right after the vacuum reports Passed, and the file reopens.")
 
 
@@ -82,6 +82,10 @@ CLAIMED["C40"] = ("memsim", "exploration", "deterministic simulation: the same s
 CLAIMED["C41"] = ("shuttlesim", "exploration", "deterministic simulation: the real enrichment worker thread on a real Memvid under shuttle's seeded random and PCT schedulers, workload drawn from the schedule's own PRNG, failures persisted as replayable schedule files",
     "memvid-core is compiled with --cfg memvid_verif_shuttle, which takes std::sync and std::thread of the worker modules from shuttle. Each schedule creates a memory, starts start_enrichment_worker, runs a random foreground history (puts that ask for enrichment, plain puts, commits, searches), then (random scheduler) waits yielding until the queue is empty, or (PCT) stops at once; stop_and_wait must return; after a final commit and after reopening every acknowledged document is present with its bytes, never-queued documents are unchanged (Enriched), every queued document is Enriched (random) or still queued (PCT), and frames_processed equals the number of documents enriched (exactly once). Deadlocks and schedules that exceed the step bound are reported by shuttle with the schedule.",
     "Liveness is judged only under the random scheduler (fair in probability); PCT is unfair by design. Tantivy's own threads are real and not scheduled. sleep is modelled as a yield in the seam.", "DESIGN.md section 7 C41")
+
+CLAIMED["C29"] = ("memsim", "fault_enumeration", "deterministic simulation: lock / unlock of simulator-produced memories under the recorder, capsules damaged at rest by structure, crash images cut from the unlock's syscall log, injected I/O errors",
+    "A seeded history produces a committed .mv2 file of 70 KiB .. 2.5 MiB (one, two or three capsule chunks). lock + unlock must reproduce it byte for byte (a third of the runs under injected short reads/writes). Damaged copies of the capsule, addressed by structure (header fields, chunk length prefixes, ciphertext, tags; truncation at and around every chunk boundary; dropped, duplicated, moved chunks), must make unlock fail and leave the output path as it was; the unlock's own syscall log is cut at sampled points (process crash) and the output path must hold f or nothing; one injected ENOSPC/EIO during unlock must not leave a different plaintext.",
+    "Real Argon2id / AES-GCM, nothing stubbed. Known findings: unauthenticated header bytes (nonce counter bytes, reserved) are accepted with an exact plaintext (KNOWN_FINDINGS.jsonl).", "DESIGN.md section 7 C29")
 
 NA = {
  "C30": "pure function of an in-memory value or byte slice (header/footer/TOC/time-index codecs): no schedule, clock, fault or history for a simulator to control",
